@@ -256,7 +256,15 @@ def o_c05(term, t, op, pre, post, ridx, fails):
             exp_chars += [texts(l) for l in o[CHARS]]
         else:
             if '\x1b' in x[1]:
-                return          # a str operand with escapes is parsed: outside this oracle
+                # a str operand with escape sequences is read as formatted text of its own (as the constructor reads it, C02):
+                # its characters keep exactly what that reading gives them, whatever stands before or after it
+                if not CSI_RE.sub(lambda m: '' if m.group(2) == 'm' else 'X', x[1]).isprintable() or '\x1b' in CSI_RE.sub('', x[1]):
+                    return      # pieces of sequences / non-SGR sequences in an operand: outside this oracle (K1)
+                from ansi_string import AnsiString as _AS
+                alone = _AS(x[1])
+                exp_text += alone.base_str
+                exp_chars += [[str(z) for z in alone.ansi_settings_at(k)] for k in range(len(alone.base_str))]
+                continue
             exp_text += x[1]
             exp_chars += [[] for _ in x[1]]
     if res[BASE] != exp_text:
